@@ -122,11 +122,13 @@ def foStep (i : FoInst) (op : String) (a : List String) : Option (FoInst × Stri
       | "err" => some (BuildAns.err x ups)
       | _ => none
     -- the stored failure must expire within FailedUpdateTTL(1 ± jitter/2) of the builder's return (C05)
+    -- (a specification-level test: FailedUpdateTTL whatever ttl the caller's context carries, independent of the regenerated kernels)
     match kind, errE, i.cfg.errCache with
     | "err", some E, true =>
-      if !admissibleE i.errCfg (if i.cfg.errsWriteResetsTTL then 0 else ((i.st.th t).cell.getD 0)) t0 t1 E then
+      if !admissibleE i.errCfg 0 t0 t1 E then
         pure (i, s!"bad-errE bounds={repr (expiryBounds i.errCfg 0 t0 t1)} got={E}")
       else pure (foFinish i (step i.cfg i.st (.buildAns t ans)) t t0 t1 errE)
+    | "err", none, true => pure (i, "missing-errE")
     | _, _, _ => pure (foFinish i (step i.cfg i.st (.buildAns t ans)) t t0 t1 errE)
   | "seederr", [key, e, E] => do
     -- a failure already cached for the key before the scenario starts
